@@ -52,6 +52,8 @@ type Profile struct {
 	Assumptions        []string
 	Special            func(prof *Profile, seed uint64) *RunResult
 	SpecialReplay      func(prof *Profile, rf *ReplayFile) *RunResult
+	CrossProcess       func(seed uint64) bool
+	TraceCheck         func(prof *Profile, trace []Op) *RunResult // how a trace is judged when shrinking/replaying (default: one replay)
 }
 
 type genState struct {
@@ -612,6 +614,38 @@ func (g *genState) mutateJSON(doc string) string {
 	return string(out)
 }
 
+// multiErr: payloads that are wrong in several places at once, so that any error text
+// assembled from an unordered collection has several candidates to choose from.
+func (g *genState) multiErr(p *MPayload) string {
+	r := g.r
+	m := p.Canonical()
+	extra := func(n int) string {
+		names := []string{"aaa", "bbb", "ccc", "zzz", "memo", "forward", "wasm", "x1", "x2"}
+		var parts []string
+		for i := 0; i < n; i++ {
+			parts = append(parts, fmt.Sprintf(`"%s":%d`, names[(r.Intn(len(names))+i)%len(names)]+fmt.Sprint(i), i))
+		}
+		return strings.Join(parts, ",")
+	}
+	switch r.Intn(6) {
+	case 0: // several unknown fields next to the forwarding fields
+		m, _ = replaceOnce(m, `"forwarding":{`, `"forwarding":{`+extra(2+r.Intn(3))+`,`)
+	case 1: // several unknown fields inside the attributes
+		m, _ = replaceOnce(m, `"attributes":{"@type"`, `"attributes":{`+extra(2+r.Intn(3))+`,"@type"`)
+	case 2: // several unknown keys inside the orbiter object
+		m, _ = replaceOnce(m, `{"orbiter":{`, `{"orbiter":{`+extra(2+r.Intn(3))+`,`)
+	case 3: // several foreign root keys
+		m = m[:len(m)-1] + "," + extra(2+r.Intn(3)) + "}"
+	case 4: // several invalid attributes at once + unknown fields in a fee entry
+		m = withFees(p, []MFee{{Recipient: "bad1", IsBPS: true, BPS: 0}, {Recipient: "bad2", Amount: big.NewInt(0)}})
+		m, _ = replaceOnce(m, `{"recipient":"bad1"`, `{`+extra(3)+`,"recipient":"bad1"`)
+	default:
+		m, _ = replaceOnce(m, `"forwarding":{`, `"forwarding":{`+extra(2)+`,`)
+		m, _ = replaceOnce(m, `{"orbiter":{`, `{"orbiter":{`+extra(2)+`,`)
+	}
+	return m
+}
+
 func (g *genState) exotic(p *MPayload, memo string) string {
 	r := g.r
 	switch r.Intn(11) {
@@ -715,7 +749,7 @@ func (g *genState) genSend(s *Sim) Op {
 	p.HasFee, p.Fees = g.genFees(s, A)
 	g.passthrough(s, p)
 	op.Recv = s.Env.Orbiter.String()
-	class := []string{"canon", "refuse", "free", "plain", "nearmiss", "exotic"}
+	class := []string{"canon", "refuse", "free", "plain", "nearmiss", "exotic", "multierr"}
 	var cw []int
 	for _, c := range class {
 		cw = append(cw, g.classW[c])
@@ -745,6 +779,9 @@ func (g *genState) genSend(s *Sim) Op {
 		if r.Intn(3) == 0 {
 			op.Memo = g.mutateJSON(op.Memo)
 		}
+	case "multierr":
+		op.Class = "free:multierr"
+		op.Memo = g.multiErr(p)
 	case "exotic":
 		op.Class = "free:exotic"
 		op.Memo = g.exotic(p, p.Canonical())
